@@ -1,5 +1,6 @@
 import ArcSwapModel.Inv.Own
 import ArcSwapModel.Inv.Probe
+import ArcSwapModel.Inv.Check
 import ArcSwapModel.Props.C03
 import ArcSwapModel.Tie.ListNewHelping
 import ArcSwapModel.Tie.ListNewFast
@@ -186,6 +187,14 @@ theorem C13_get_debt_swap_no_fault {st : State} (h : Reachable st) (t c g p i : 
     (hop : (st.th t).op = .load c g (.pswap p i)) (hf : st.sh.fault = none) :
     (microStep st t b).1.sh.fault = none :=
   pswap_no_fault h t c g p i b hop hf
+
+/-- `check_cooldown`: "Somebody took a node while it was being checked" never fires — the node a
+    `Node::get` holds for its look at `active_writers` is in the checking state when the exchange at
+    the end of the check finds it: nobody else touches a node in that state (`CheckInv`,
+    `Inv/Check.lean`; the state was introduced by the repair of D12). -/
+theorem C13_check_cooldown_assert {st : State} (h : Reachable st) (t n : Nat)
+    (hc : (st.th t).op.chk = some n) : (st.sh.nodes n).inUse = Consts.nodeChecking :=
+  (CheckInv.reachable h).held t n hc
 
 /-!
 Not proved: `help`'s "Refusing to help myself" (after a nested wrap the helper's `self` is a node
